@@ -5,6 +5,9 @@ import runner as R
 import progutil
 
 KEYS = None
+# observations whose model value is the property's specified value (a disagreement there is a failing input);
+# on the others the correspondence supports the tie and the oracle searches for the failing input
+SPEC_KEYS = set()
 
 
 def needed_params(prog):
